@@ -261,3 +261,32 @@ func benignSetHeader(m *DenseReal64Matrix, rows, cols int) {
   m.cols, m.colMax, m.colOffset = cols, cols, 0
   m.transposed = false
 }''')
+# --- batch D robustness edits ---
+# transposed view written as header copy plus swaps (scratch vectors swapped too)
+sub('matrix_dense_real32.go','''  return &DenseReal32Matrix{
+    values : matrix.values,
+    rows : matrix.cols,
+    cols : matrix.rows,
+    transposed: !matrix.transposed,
+    rowOffset : matrix.colOffset,
+    rowMax : matrix.colMax,
+    colOffset : matrix.rowOffset,
+    colMax : matrix.rowMax,
+    tmp1 : matrix.tmp2,
+    tmp2 : matrix.tmp1 }''','''  m := *matrix
+  m.rows, m.cols = matrix.cols, matrix.rows
+  m.rowOffset, m.colOffset = matrix.colOffset, matrix.rowOffset
+  m.rowMax, m.colMax = matrix.colMax, matrix.rowMax
+  m.tmp1, m.tmp2 = matrix.tmp2, matrix.tmp1
+  m.transposed = !matrix.transposed
+  return &m''')
+# raw storage sub-slice with a renamed offset variable
+sub('matrix_dense_float32.go','''    i = matrix.index(i, 0)
+    v = matrix.values[i:i + matrix.cols]''','''    first := matrix.index(i, 0)
+    v = matrix.values[first:first + matrix.cols]''')
+# SetN: the two plain stores in the other order
+sub('statistics/scalarDistribution/binomial.go','''  dist.n  .SetFloat64(float64(n+0))
+  dist.np1.SetFloat64(float64(n+1))
+  dist.z  .Lgamma(dist.np1)''','''  dist.np1.SetFloat64(float64(n+1))
+  dist.n  .SetFloat64(float64(n+0))
+  dist.z  .Lgamma(dist.np1)''')
